@@ -57,6 +57,11 @@ check("C08", "exploration",
       "Generated programs place 34 kinds of state-mutating commands before and inside every kind of subshell (( ), $( ), both pipeline elements, asynchronous lists, nested to depth 3); a probe serialises the complete shell state (variables+attributes, positional parameters, functions, aliases, options, traps, cwd, umask, limits, descriptor table by open-file-description identity, signal dispositions, mask) around each one. Oracles: the parent's snapshot is unchanged by whatever the child does - also while an asynchronous child is still running, under seeded schedules with preemption between any two kernel calls of the parent; the child's entry snapshot equals the parent's except exactly the documented differences; data written to shared files/pipes arrives (positive control). A virtual fork is an in-memory clone sharing reference-counted parts, so leaks are schedule dependent - which only a controlled scheduler explores.",
       BASE_NOTE, "deterministic simulation: full-state snapshots around subshells under seeded schedules with preemption", "DESIGN.md section 4 C08")
 
+check("C15", "exploration",
+      "The real yash_executor::Executor runs seeded systems of instrumented futures (self-wake during poll by value/by reference, park wakers in channels, signal/poke channels, spawn children through the Spawner and await/drop/keep their Receivers) while the driver injects external events between step() calls (wakes and double wakes from outside any poll, waker clone/drop, try_receive and Receiver drops, outside spawns) and finally drops the executor, in a third of the cases while tasks are still parked. A reference model (FIFO queue with duplicate suppression, relay states) is stepped in lock-step: every poll, every step()/run_until_stalled() result, wake_count(), every received value and try_receive result must agree; no poll after Ready, no re-entrant poll, every future dropped exactly once. The cases run in a child process so that memory unsafety in the waker vtable (crash) is reported as a violation.",
+      "Harness: instrumented futures, channels and the reference model are ours; the executor crate is real, rebuilt from /repo. Sampling (hundreds of thousands of task systems per quick run), not exhaustive enumeration.",
+      "deterministic simulation of wake/poll orderings with lock-step reference scheduler model", "DESIGN.md section 4 C15")
+
 import os
 selected = os.environ.get("MANIFEST_ONLY")
 manifest = {
